@@ -43,7 +43,7 @@ PROPS["C01"] = _hist(
     lambda f: f["pages"] >= 8 and 0 < f["crawled"] < f["pages"],
     ["C01_pages_compared", "reports_checked"],
     ["LRUTrie.add_page", "LRUTrie.add_lru", "LRUTrie.pages_iter", "LRUTrie.count_pages", "LRUTrie.count_crawled_pages"],
-    Q(640, sorted_chain=1100), T(2400, exhaustive_shapes=5, soak=3000, sorted_chain=1500),
+    Q(1200, sorted_chain=1100), T(2400, exhaustive_shapes=5, soak=3000, sorted_chain=1500),
 )
 
 PROPS["C02"] = _hist(
@@ -101,7 +101,7 @@ PROPS["C05"] = _hist(
     lambda f: f["we"] >= 3 and f["pages"] >= 8 and f["nested"] >= 1,
     ["C05_webentities"],
     ["LRUTrie.webentity_dfs_iter", "Traph.get_webentity_pages_iter", "Traph.get_webentity_crawled_pages_iter"],
-    Q(640), T(2400),
+    Q(1400), T(2400),
 )
 
 PROPS["C06"] = _hist(
@@ -131,7 +131,7 @@ PROPS["C07"] = _hist(
     lambda f: f["we"] >= 3 and f["pairs"] >= 6,
     ["C07_networks", "C07_transposes"],
     ["LRUTrie.dfs_with_webentity_iter", "Traph.get_webentities_links_iter", "Traph.get_webentities_links_slow_iter", "LRUTrie.windup_lru_for_webentity"],
-    Q(560), T(2000),
+    Q(1100), T(2000),
 )
 
 PROPS["C08"] = _hist(
@@ -172,7 +172,7 @@ PROPS["C19"] = _hist(
     lambda f: f["long"] >= 1 and f["links"] >= 1,
     ["C19_per_op_sizes", "C19_accountings", "C19_metrics"],
     ["LRUTrieNode.write", "detailed_chunks_iter", "LRUTrie.metrics", "LinkStore.count_links"],
-    Q(640), T(2400, soak=20000),
+    Q(1400), T(2400, soak=20000),
 )
 
 PROPS["C20"] = _hist(
@@ -223,7 +223,7 @@ PROPS["C09"] = _paging(
     lambda f: f["we"] >= 1 and f["pages"] >= 4,
     ["C09_paginations", "C09_multi_call_paginations", "C09_resumes", "C09_codec_roundtrips"],
     ["LRUTrie.webentity_inorder_iter", "Traph.paginate_webentity_pages", "build_pagination_token", "parse_pagination_token"],
-    dict(cases=220, nops=(20, 40), time_cap=120, watchdog=400, min_cases=40, w_random=3, w_shape=1, codec_len=6, codec_random=300, deep_n=1200),
+    dict(cases=640, nops=(20, 40), time_cap=120, watchdog=400, min_cases=100, w_random=3, w_shape=1, codec_len=6, codec_random=300, deep_n=1200),
     dict(cases=3000, nops=(25, 50, 90), time_cap=800, watchdog=1500, min_cases=400, w_random=3, w_shape=1, exhaustive_shapes=6,
          codec_len=8, codec_random=5000, deep_n=1200),
 )
@@ -240,7 +240,7 @@ PROPS["C10"] = _paging(
     lambda f: f["we"] >= 1 and f["pairs"] >= 2,
     ["C10_paginations", "C10_multi_call_paginations", "C10_resumes"],
     ["LRUTrie.webentity_inorder_iter", "Traph.paginate_webentity_pagelinks", "Traph.get_webentity_pagelinks_iter"],
-    dict(cases=220, nops=(20, 40), time_cap=120, watchdog=400, min_cases=40, w_random=3, w_shape=1, deep_n=1200),
+    dict(cases=640, nops=(20, 40), time_cap=120, watchdog=400, min_cases=100, w_random=3, w_shape=1, deep_n=1200),
     dict(cases=3000, nops=(25, 50, 90), time_cap=800, watchdog=1500, min_cases=400, w_random=3, w_shape=1, exhaustive_shapes=6, deep_n=1200),
 )
 
@@ -257,7 +257,7 @@ PROPS["C17"] = {
     "deciding_counters": ["C17_lrus", "C17_closure_checks", "C17_end_to_end_sites", "contract_evals:helpers.lru_variations",
                           "contract_evals:traph.lru_variations(bound name)"],
     "anchors": ["lru_variations", "https_variation", "Traph.expand_prefix"],
-    "quick": dict(max_hosts=3, max_paths=1, random=4000, e2e=60, shards=8, watchdog=300, min_cases=500),
+    "quick": dict(max_hosts=3, max_paths=1, random=24000, e2e=160, shards=8, watchdog=300, min_cases=500),
     "thorough": dict(max_hosts=3, max_paths=2, random=200000, e2e=1500, shards=16, watchdog=1500, min_cases=5000),
     "level": "exploration",
     "assumptions": ["the enumerated grammar is bounded (H=3 hosts, P<=2 path stems from 7 values); longer LRUs are sampled only"],
